@@ -1,10 +1,11 @@
+\* deviation demo, not part of any plan.  expected: Invariant MapWellFormed is violated (a range after a multi-gate expansion starts too early)
 SPECIFICATION Spec
-CONSTANT Deviations = {}
-CONSTANT Family = "subst"
+CONSTANT Deviations = {"RangeFromSourceIndex"}
+CONSTANT Family = "graph"
 CONSTANT W1 = 2
-CONSTANT W2 = 1
+CONSTANT W2 = 2
 CONSTANT W3 = 1
-CONSTANT FilterLevel = 1
+CONSTANT FilterLevel = 2
 CONSTANT BodyLevel = 1
 INVARIANT Refines
 INVARIANT ErrorsExact
@@ -17,5 +18,4 @@ INVARIANT GenStackDiscipline
 INVARIANT GenDepthBounded
 INVARIANT NotStuck
 INVARIANT FrameInvariant
-INVARIANT Emit
 CHECK_DEADLOCK FALSE
